@@ -560,6 +560,8 @@ func init() {
 		checkGetOpts(r, prog, a, "c18") // no budget unless one is asked for: CreateEvaluator accepts what grammar.Parse accepts
 		r.importing = "C17"
 		checkFilter(r, prog, a, "c17") // what CreateFilter hands back can be executed: the nil filter of the empty expression too
+		r.importing = "C19"
+		checkDumpPanicSites(r, prog, a, ga, "c19") // "… and a syntax tree returned without error dumped, without panicking"
 		r.importing = ""
 		if ga != nil {
 			checkWellFormed(r, ga, "c10")
